@@ -2,6 +2,211 @@
 
 package mimetype
 
-func (g *vfGen) runMore2(slice string) bool { return false }
+import (
+	"encoding/binary"
+	"fmt"
+	"strings"
+)
 
-func vfExecMore2(f []string, op string) (string, bool) { return "", false }
+func vfExecMore2(f []string, op string) (string, bool) { return vfExecMore3(f, op) }
+
+func (g *vfGen) runMore2(slice string) bool {
+	switch slice {
+	case "C01":
+		g.genC01()
+	default:
+		return g.runMore3(slice)
+	}
+	return true
+}
+
+func le32(v uint32) []byte { b := make([]byte, 4); binary.LittleEndian.PutUint32(b, v); return b }
+
+// crafted headers with attacker-controlled length / offset fields
+func (g *vfGen) attackHeaders() [][]byte {
+	var out [][]byte
+	big := []uint32{0, 1, 2, 7, 8, 0x7f, 0x80, 0xff, 0x100, 0x1ff, 0x200, 0xfff, 0x1000, 0x7fffffff, 0x80000000, 0xfffffffe, 0xffffffff, 0xffffffcf, 0xffffffce, 0xffffffd0}
+	// OLE compound files
+	for _, total := range []int{511, 512, 513, 600, 1200, 4096 + 600, 8192 + 100} {
+		for _, ver := range [][2]byte{{3, 0}, {4, 0}, {4, 1}} {
+			secs := append([]uint32{}, big...)
+			secs = append(secs, uint32(total/512), uint32(total/512-1), uint32(total/4096), uint32((total-96)/512), uint32((total-97)/512))
+			for _, sec := range secs {
+				b := make([]byte, total)
+				copy(b, []byte{0xD0, 0xCF, 0x11, 0xE0, 0xA1, 0xB1, 0x1A, 0xE1})
+				b[26], b[27] = ver[0], ver[1]
+				copy(b[48:], le32(sec))
+				out = append(out, b)
+			}
+		}
+	}
+	// zip local headers: compressed size field at 18
+	names := []string{"[Content_Types].xml", "META-INF/MANIFEST.MF", "mimetypeapplication/epub+zip", "a", "word/document.xml", "docProps/app.xml"}
+	for _, total := range []int{29, 30, 31, 49, 50, 80, 120, 300} {
+		for _, cs := range append(append([]uint32{}, big...), uint32(total-49), uint32(total-48), uint32(total-50), uint32(total-79), uint32(total-30)) {
+			for _, nm := range names {
+				b := make([]byte, total)
+				copy(b, "PK\x03\x04")
+				if total > 22 {
+					copy(b[18:], le32(cs))
+				}
+				if total > 30 {
+					copy(b[30:], nm)
+				}
+				// plant further local headers
+				for _, at := range []int{60, total - 35, total - 4} {
+					if at > 34 && at+4 <= total {
+						copy(b[at:], "PK\x03\x04")
+						if at+30 < total {
+							copy(b[at+30:], "word/")
+						}
+					}
+				}
+				out = append(out, b)
+			}
+		}
+	}
+	// CRX
+	for _, total := range []int{15, 16, 17, 20, 40, 100} {
+		for _, a := range big {
+			for _, c := range []uint32{0, 1, uint32(total - 16), uint32(total - 20), 0xffffffff - a, 0xfffffff0 - a + uint32(total)} {
+				b := make([]byte, total)
+				copy(b, "Cr24")
+				if total >= 16 {
+					copy(b[8:], le32(a))
+					copy(b[12:], le32(c))
+				}
+				if total >= 20 {
+					copy(b[total-4:], "PK\x03\x04")
+				}
+				out = append(out, b)
+			}
+		}
+	}
+	// matroska: the 0x42 0x82 marker near the end / the 4096 boundary, every width byte class
+	for _, total := range []int{6, 7, 8, 9, 12, 20, 4095, 4096, 4097, 4100, 4110} {
+		for _, pos := range []int{4, 5, total - 2, total - 3, total - 4, total - 11, 4093, 4094, 4095} {
+			for _, w := range []byte{0x80, 0x40, 0x20, 0x10, 0x08, 0x04, 0x02, 0x01, 0x00} {
+				if pos < 1 || pos+2 > total {
+					continue
+				}
+				b := make([]byte, total)
+				for i := range b {
+					b[i] = 0x11
+				}
+				copy(b, []byte{0x1A, 0x45, 0xDF, 0xA3})
+				b[pos], b[pos+1] = 0x42, 0x82
+				if pos+2 < total {
+					b[pos+2] = w
+				}
+				for _, k := range []int{1, 2, 8} {
+					if pos+2+k+4 <= total {
+						copy(b[pos+2+k:], "webm")
+					}
+				}
+				out = append(out, b)
+			}
+		}
+	}
+	return out
+}
+
+func (g *vfGen) htmlInputs(n int) [][]byte {
+	labels := []string{"utf-8", "UTF-8", "iso-8859-1", "windows-1252", "utf-16", "UTF-16LE", "x", "a\"b", "a;b", "é", "\xff\xfe", "a b", "", "shift_jis", "a&lt;b", "k\\oi8"}
+	contents := []string{"text/html; charset=%s", "text/html;charset=\"%s\"", "text/html; charset='%s'", "charset %s", "text/html; charset: %s", "charset", "charsetcharset=%s", "text/html; charset =  %s ; x=y", "Charset=%s"}
+	pro := []string{"", "<!DOCTYPE html>", "<html><head>", "<!-- <meta charset=fake> -->", "<title><meta charset=fake></title>", "<script>var a='<meta charset=fake>'</script>", " \n\t", "\xef\xbb\xbf", "\xff\xfe"}
+	var out [][]byte
+	for i := 0; i < n; i++ {
+		l := labels[g.rng.Intn(len(labels))]
+		p := pro[g.rng.Intn(len(pro))]
+		var decl string
+		switch g.rng.Intn(6) {
+		case 0:
+			decl = fmt.Sprintf("<meta charset=%s>", l)
+		case 1:
+			decl = fmt.Sprintf("<META CHARSET=\"%s\" />", l)
+		case 2:
+			decl = fmt.Sprintf("<meta http-equiv=\"Content-Type\" content=\"%s\">", fmt.Sprintf(contents[g.rng.Intn(len(contents))], l))
+		case 3:
+			decl = fmt.Sprintf("<meta content='%s' http-equiv=content-type>", strings.ReplaceAll(fmt.Sprintf(contents[g.rng.Intn(len(contents))], l), "%!(EXTRA string="+l+")", ""))
+		case 4:
+			decl = fmt.Sprintf("<meta content=\"%s\">", fmt.Sprintf(contents[g.rng.Intn(len(contents))], l))
+		default:
+			decl = fmt.Sprintf("<meta name=x content=y><meta charset='%s'>", l)
+		}
+		decl = strings.ReplaceAll(decl, "%!(EXTRA string="+l+")", "")
+		doc := p + "<html><head>" + decl + "</head><body>h\xe9llo</body></html>"
+		if g.rng.Intn(3) == 0 {
+			doc = p + decl
+		}
+		out = append(out, []byte(doc))
+	}
+	return out
+}
+
+func (g *vfGen) genC01() {
+	// 1. every corpus entry cut at every (short) length, through Detect with the limit at / around the cut
+	for _, c := range vfCorpus() {
+		max := len(c)
+		if max > 96 {
+			max = 96
+		}
+		for n := 0; n <= max; n++ {
+			if !g.thorough && n > 40 && n%3 != 0 {
+				continue
+			}
+			g.emit(vfOp("walk", c[:n], 0))
+		}
+		if len(c) > 96 {
+			for i := 0; i < g.pick(3, 30); i++ {
+				n := g.rng.Intn(len(c))
+				g.emit(vfOp("walk", c, n))
+			}
+		}
+	}
+	// 2. crafted headers with hostile length fields
+	for _, h := range g.attackHeaders() {
+		g.emit(vfOp("walk", h, 0))
+		if g.thorough || g.rng.Intn(4) == 0 {
+			g.emit(vfOp("walk", h, len(h)))
+			g.emit(vfOp("walk", h, len(h)-1))
+		}
+	}
+	// 3. limits
+	for _, c := range [][]byte{{}, {0}, []byte("a"), []byte("{\"a\":[1,2"), []byte("a,b\n1,2\n3,"), []byte("<html><meta charset=x>")} {
+		for _, l := range vfLimits {
+			g.emit(vfOp("walk", c, l))
+		}
+	}
+	// 4. HTML / XML declarations (charset extraction loops)
+	for _, h := range g.htmlInputs(g.pick(400, 8000)) {
+		g.emit(vfOp("walk", h, 0))
+	}
+	// 5. random bytes and mutated corpus
+	corpus := vfCorpus()
+	for i := 0; i < g.pick(1500, 40000); i++ {
+		var b []byte
+		if g.rng.Intn(3) == 0 {
+			b = g.bytes(g.rng.Intn(600))
+		} else {
+			c := corpus[g.rng.Intn(len(corpus))]
+			if len(c) > 5000 {
+				c = c[:5000]
+			}
+			b = append([]byte{}, c...)
+			for k := 0; k < 1+g.rng.Intn(4) && len(b) > 0; k++ {
+				switch g.rng.Intn(3) {
+				case 0:
+					b[g.rng.Intn(len(b))] = byte(g.rng.Intn(256))
+				case 1:
+					j := g.rng.Intn(len(b))
+					b = append(b[:j], b[j+1:]...)
+				default:
+					j := g.rng.Intn(len(b) + 1)
+					b = append(b[:j], append([]byte{byte(g.rng.Intn(256))}, b[j:]...)...)
+				}
+			}
+		}
+		g.emit(vfOp("walk", b, []uint32{0, 0, 3072, uint32(len(b)), uint32(len(b) / 2)}[g.rng.Intn(5)]))
+	}
+}
